@@ -132,9 +132,20 @@ func (u *DoHTransport) exchange(ctx context.Context, rawQuery string) (*dnsmsg.M
 	req.URL = new(urlpkg.URL)
 	*req.URL = *u.urlTemplate
 	req.URL.RawQuery = rawQuery
-	resp, err := u.rt.RoundTrip(req)
-	if err != nil {
-		return nil, fmt.Errorf("http request failed: %w", err)
+	// A pooled connection may have been closed by the server while it was
+	// idle; the http transport only notices when the request fails. The
+	// request is an idempotent GET, so try again (on another connection) a
+	// bounded number of times.
+	var resp *http.Response
+	var err error
+	for retry := 0; ; retry++ {
+		resp, err = u.rt.RoundTrip(req)
+		if err == nil {
+			break
+		}
+		if retry >= 2 || ctxIsDone(ctx) {
+			return nil, fmt.Errorf("http request failed: %w", err)
+		}
 	}
 	defer resp.Body.Close()
 
